@@ -130,6 +130,14 @@ def contexts_for_stmt(k, depth2, rnd, limit, loops_only=False):
     for ee in EE:
         for se in SE:
             out.append(("local r = " + ee).replace("HOLE", se.replace("HOLE", inner_loop)))
+    # ... and of every expression position of every statement kind (loop headers, the `until`
+    # condition, typeof annotations, call arguments ...): always generated, never sampled
+    for es in ES:
+        for se in SE:
+            out.append(es.replace("HOLE", se.replace("HOLE", inner_loop)))
+    for ss in pool:
+        for es in ES:
+            out.append(ss.replace("HOLE", es.replace("HOLE", SE[1].replace("HOLE", inner_loop))))
     if depth2:
         combos = []
         for ss in pool:
